@@ -10,7 +10,7 @@ from .kernel_params import bodies_module
 TIERS = {
     'quick': dict(design_cfg='KernelMC_small.cfg', sim_num=3200, sim_depth=30, rnd_num=1500, rnd_len=25,
                   design_timeout=600),
-    'thorough': dict(design_cfg='KernelMC_thorough.cfg', sim_num=48000, sim_depth=40, rnd_num=30000, rnd_len=40,
+    'thorough': dict(design_cfg='KernelMC_thorough.cfg', sim_num=24000, sim_depth=40, rnd_num=16000, rnd_len=40,
                      design_timeout=3000),
 }
 
